@@ -92,7 +92,9 @@ def write(t: int, off: int, rng: random.Random):
 OFFSETS = [0, 3600, 7200, -36000, 5 * 3600 + 45 * 60, 14 * 3600, -12 * 3600, 1800, 9 * 3600 + 1800, -3 * 3600 - 1800, 12 * 3600 + 45 * 60]
 BAD = ["", None, "2022-01-01T00:00:00", "garbage", "2022-01-01T00:00:00−01:00", "2022-01-01T00:00:00+01:00\n", "2022-01-01T24:00:00+01:00",
        "2022-01-01T00:00:00+24:00", "2022-13-01T00:00:00+01:00", "\ud800", "0001-01-01T00:00:00+01:00", "9999-12-31T23:59:59-01:00",
-       "0001-01-01T00:00:00+00:00", "9999-12-31T23:59:59Z", "2022-01-01", "12:00:00+01:00", "Z", "2022-02-30T00:00:00Z", "２０２２-01-01T00:00:00Z"]
+       "0001-01-01T00:00:00+00:00", "9999-12-31T23:59:59Z", "2022-01-01", "12:00:00+01:00", "Z", "2022-02-30T00:00:00Z", "２０２２-01-01T00:00:00Z",
+       # characters that are special to string formatting, logging and regular expressions
+       "{", "}", "{}", "{0}", "{foo}", "%s", "%(x)s", "%", "\\", "2022-01-01T00:00:00+01:00}", "{2022-01-01T00:00:00+01:00}", "$1", "\x00", "a" * 5000, " ", "\t\n"]
 
 
 def run(ctx: Ctx) -> None:
@@ -103,7 +105,7 @@ def run(ctx: Ctx) -> None:
 
     ctx.rule = ("quick: every whole hour within +-3 h of both DST switches of all 42 years, 20000 random seconds, x 4 offsets each; thorough: ALL 368184 whole hours "
                 "1996-2037; offsets from {0, +1h, +2h, -10h, +5:45, +14h, -12h, +0:30, +9:30, -3:30, +12:45}; notations Z, +hh:mm, +hhmm, +hh, blank/T/t separator, "
-                "basic format; a stream of strings that are not datetimes with offset; distinct = (instant, offset, notation); non-trivial = all")
+                "basic format; a stream of strings that are not datetimes with offset (incl. characters special to str.format / % / regex), directly and through the evaluator infrastructure; distinct = (instant, offset, notation); non-trivial = all")
     ctx.coverage["generated_changed"] = extract.regenerate(["Berlin"])
     ok = ctx.lean_build(MODULES)
     drv = ctx.lean_build_driver()
@@ -179,8 +181,28 @@ def run(ctx: Ctx) -> None:
                 parses = False
             if not parses and (r.format_constraint_fulfilled or not r.error_message):
                 ctx.violation(f"[{k}] does not report a non-datetime as unfulfilled with a message", {"key": k, "input": s, "got": [r.format_constraint_fulfilled, r.error_message]}, key=f"bad:{k}")
-    # 931 on times of day other than midnight; through format_constraint_evaluation with the context variable
+    # the same strings through the evaluator infrastructure (context variable -> evaluate_single_format_constraint -> format_constraint_evaluation)
     evalenv.configure_cer_based(extra=[ev])
+    for s in BAD:
+        if s is None or "\ud800" in s:
+            continue
+        for k in ("931", "932", "934"):
+            fc_evaluators.text_to_be_evaluated_by_format_constraint.set(s)
+            ctx.case(("bad-infra", k, s[:60]))
+            try:
+                r1 = asyncio.run(ev.evaluate_single_format_constraint(k))
+                r2 = asyncio.run(format_constraint_evaluation(f"[{k}]"))
+            except BaseException as e:  # pylint:disable=broad-except
+                ctx.violation(f"[{k}] raises {type(e).__name__} on a string input (through evaluate_single_format_constraint / format_constraint_evaluation)",
+                              {"key": k, "input": s[:200]}, key=f"raise-infra:{type(e).__name__}")
+                continue
+            direct = methods[k](s)
+            if bool(r1.format_constraint_fulfilled) != bool(direct.format_constraint_fulfilled) or bool(r2.format_constraints_fulfilled) != bool(direct.format_constraint_fulfilled) \
+                    or (not r1.format_constraint_fulfilled and not r1.error_message):
+                ctx.violation(f"[{k}]: the verdict through the evaluator infrastructure differs from the evaluation method's own, or an unfulfilled result has no message",
+                              {"key": k, "input": s[:200], "direct": [direct.format_constraint_fulfilled, direct.error_message], "single": [r1.format_constraint_fulfilled, r1.error_message]},
+                              key=f"infra:{k}")
+    # 931 on times of day other than midnight; through format_constraint_evaluation with the context variable
     for s, want in (("2022-06-01T12:00:00+00:00", True), ("2022-06-01T12:00:00Z", True), ("2022-06-01T00:00:00+02:00", False), ("2021-12-31T23:00:00+00:00", True)):
         fc_evaluators.text_to_be_evaluated_by_format_constraint.set(s)
         try:
